@@ -44,6 +44,19 @@ def side_origins(prog, m, g, a):
     x = mir.provenance(g, a, follow_all_call_args=False)
     fields, calls = set(x.fields), list(x.calls)
     if g is not m and x.upvars:
+        # precise captures (`benefit.acquire_tx_date` captured as a place of its own): the operand the closure was built with
+        for b in m.blocks.values():
+            for st in b['stmts']:
+                if st['r']['rv'] == 'agg' and st['r']['kind'] == 'closure:' + g.name:
+                    for u in x.upvars:
+                        try:
+                            op = st['r']['ops'][int(u)]
+                        except (ValueError, IndexError, TypeError):
+                            continue
+                        if mir.is_place(op):
+                            y = mir.provenance(m, op, follow_all_call_args=False)
+                            fields |= y.fields
+                            calls += y.calls
         for u in x.upvars:
             nm = g.upvar_names.get(u)
             for l, n in m.varnames.items():
@@ -87,12 +100,67 @@ def run(prog, rep, tier='quick', config='default'):
         is_trade = [('BrokerTx', 'trade_date') in x for x in f0]
         is_benefit = [('BenefitEntry', 'acquire_tx_date') in x and not l for x, l in zip(f0, is_latest)]
         op = mm.group(1)
+        # the truth value this comparison has where the trade is accepted as a candidate (`if a > b || .. { continue }` accepts on
+        # false): on the way to the push into the candidate list, or on the true-returning paths of the filter closure
+        truth = None
+        if g is not m:
+            cases = mir.bool_cases(prog, g, lambda fn_, call_, c=c: ('the-test', 'bool') if call_ is c else None) or []
+            vals_ = {cs.get('the-test') for cs, v in cases if v is True}
+            if len(vals_) == 1 and None not in vals_:
+                truth = vals_.pop()
+        else:
+            seen = set()
+            for x in m.calls:
+                if x.short == 'push' and re.search(r'Vec<&.*BrokerTx', m.ty.get(x.arg_local(0), '') or ''):
+                    for (sbb, discr, vals, neg) in m.conditions_at(x.bb):
+                        if c in mir.provenance(m, discr).calls:
+                            seen.add((vals != [0]) if vals is not None else (0 in (neg or [])))
+            if len(seen) == 1:
+                truth = seen.pop()
+        if truth is False:
+            op = {'le': 'gt', 'lt': 'ge', 'ge': 'lt', 'gt': 'le'}[op]
         for i in (0, 1):
             j = 1 - i
             if is_trade[i] and is_latest[j]:
                 upper = (op if i == 0 else {'le': 'ge', 'lt': 'gt', 'ge': 'le', 'gt': 'lt'}[op], c)
             if is_trade[i] and is_benefit[j]:
                 lower = (op if i == 0 else {'le': 'ge', 'lt': 'gt', 'ge': 'le', 'gt': 'lt'}[op], c)
+    # the same test written as a range: `(benefit date ..= latest day).contains(&trade.trade_date)`
+    for g, c in [(g, c) for g in group for c in g.calls]:
+        if c.short != 'contains' or not re.search(r'ops::Range(Inclusive)?::<', c.callee) or len(c.args) != 2:
+            continue
+        ro = mir.provenance(g, c.args[0])
+        mk = [x for x in ro.calls if x.callee.startswith('std::ops::RangeInclusive::<') and x.short == 'new' and len(x.args) == 2]
+        ends = None
+        inclusive = 'RangeInclusive' in c.callee
+        if mk:
+            ends = (mk[0].args[0], mk[0].args[1])
+        else:
+            for b in g.blocks.values():
+                for st in b['stmts']:
+                    if st['r']['rv'] == 'agg' and re.search(r'ops::Range(Inclusive)?$', st['r']['kind']) and st['dst']['l'] in ro.locals and len(st['r']['ops']) == 2:
+                        ends = (st['r']['ops'][0], st['r']['ops'][1])
+        if ends is None:
+            continue
+        so = [side_origins(prog, m, g, a) for a in (ends[0], ends[1], c.args[1])]
+        fz = [{(of.rsplit('::', 1)[-1], fl) for of, fl in x[0]} for x in so]
+        end_is_latest = bool(adds) and adds[0] in so[1][1]
+        start_is_benefit = ('BenefitEntry', 'acquire_tx_date') in fz[0] and not (adds and adds[0] in so[0][1])
+        item_is_trade = ('BrokerTx', 'trade_date') in fz[2]
+        if not item_is_trade:
+            continue
+        truth = None
+        if g is not m:
+            cases = mir.bool_cases(prog, g, lambda fn_, call_, c=c: ('the-test', 'bool') if call_ is c else None) or []
+            vals_ = {cs.get('the-test') for cs, v in cases if v is True}
+            if len(vals_) == 1 and None not in vals_:
+                truth = vals_.pop()
+        if truth is False:
+            continue        # accepted when OUTSIDE the range: left to the fall-through violation below
+        if start_is_benefit:
+            lower = ('ge', c)
+        if end_is_latest:
+            upper = ('le' if inclusive else 'lt', c)
     # normalised as  trade_date OP bound
     if upper and upper[0] == 'le' and lower and lower[0] == 'ge':
         rep.ok('R19a', 'window-inclusive-on-trade-dates', where=upper[1].where(), fn=m.name, detail='benefit date <= trade date <= benefit date + 5 (both inclusive)')
@@ -134,7 +202,8 @@ def run(prog, rep, tier='quick', config='default'):
         if c.short not in ('filter', 'filter_map') or not re.search(r'slice::Iter<.*BrokerTx', m.ty.get(c.arg_local(0), '') or ''):
             continue
         g = mir._closure_fn_of(prog, m, c.args[1]) if len(c.args) > 1 else None
-        if g is None or not any(re.search(r'PartialOrd::(le|lt|ge|gt)$', x.decl) for x in g.calls):
+        if g is None or not any(re.search(r'PartialOrd::(le|lt|ge|gt)$', x.decl) or
+                                (x.short == 'contains' and re.search(r'ops::Range(Inclusive)?::<', x.callee)) for x in g.calls):
             continue
         src = mir.nearest_user_local(m, c.args[0])
         if src is None:
